@@ -827,7 +827,10 @@ Lemma proj_track_op_cancel cfg m r ob :
   proj (track_op cfg m (Cancel r) ob) = proj m \/ proj (track_op cfg m (Cancel r) ob) = upd_nth r (fun _ => (true, false, false)) (proj m).
 Proof.
   cbn [track_op]. destruct (nth_error (m_reqs m) r) as [x|]; [|left; reflexivity].
-  destruct (ri_stat x); try (left; reflexivity); right; apply proj_ri_upd; intros y; unfold pj; dm; reflexivity.
+  destruct (ri_stat x); try (left; reflexivity); right;
+    match goal with |- proj (ri_upd _ r ?m') = _ =>
+      assert (E : proj m' = proj m) by (dm; reflexivity); rewrite <- E end;
+    apply proj_ri_upd; intros y; unfold pj; dm; reflexivity.
 Qed.
 
 Lemma live_track_op_cancel cfg m r ob : live (proj (track_op cfg m (Cancel r) ob)) r = false.
@@ -836,10 +839,12 @@ Proof.
   2: { unfold live, proj. rewrite nth_error_map, Hx. reflexivity. }
   assert (Hn : nth_error (proj m) r = Some (pj x)) by (unfold proj; rewrite nth_error_map, Hx; reflexivity).
   destruct (ri_stat x) eqn:Hs.
-  - erewrite proj_ri_upd with (f' := fun _ => (true, false, false)); [|intros y; unfold pj; dm; reflexivity].
-    rewrite (live_set _ _ _ _ Hn). reflexivity.
-  - erewrite proj_ri_upd with (f' := fun _ => (true, false, false)); [|intros y; unfold pj; dm; reflexivity].
-    rewrite (live_set _ _ _ _ Hn). reflexivity.
+  - match goal with |- live (proj (ri_upd _ r ?m')) r = _ => assert (E : proj m' = proj m) by (dm; reflexivity) end.
+    erewrite proj_ri_upd with (f' := fun _ => (true, false, false)); [|intros y; unfold pj; dm; reflexivity].
+    rewrite E, (live_set _ _ _ _ Hn). reflexivity.
+  - match goal with |- live (proj (ri_upd _ r ?m')) r = _ => assert (E : proj m' = proj m) by (dm; reflexivity) end.
+    erewrite proj_ri_upd with (f' := fun _ => (true, false, false)); [|intros y; unfold pj; dm; reflexivity].
+    rewrite E, (live_set _ _ _ _ Hn). reflexivity.
   - unfold live. rewrite Hn. unfold pj, is_live. rewrite Hs. reflexivity.
   - unfold live. rewrite Hn. unfold pj, is_live. rewrite Hs. reflexivity.
 Qed.
